@@ -48,7 +48,7 @@ res['patch_applies'] = a.returncode == 0
 if not res['patch_applies']:
     res['apply_err'] = a.stderr[-400:]
     print(json.dumps(res, indent=1)); sys.exit(1)
-cmd = demo_cmd()
+cmd = os.environ.get('DEMO_CMD') or demo_cmd()   # DEMO_CMD: explicit demo command (e.g. a feature-gated test)
 res['demo_cmd'] = cmd
 # demo on pristine
 sh(f'git apply {seed}/demo.diff')
